@@ -282,14 +282,20 @@ impl DepthFirstSearch {
                         // Rule executed successfully and goal is now proven
                         goal.status = GoalStatus::Proven;
 
-                        // Save this solution
-                        self.solutions.push(Solution {
-                            path: self.path.clone(),
-                            bindings: goal.bindings.to_map(),
-                        });
+                        // Save this solution. Only proofs of the root goal are
+                        // solutions of the query; a sub-goal just needs one proof.
+                        if depth == 0 {
+                            self.solutions.push(Solution {
+                                path: self.path.clone(),
+                                bindings: goal.bindings.to_map(),
+                            });
+                        }
 
                         // If we only want one solution OR we've found enough, stop searching
-                        if self.max_solutions == 1 || self.solutions.len() >= self.max_solutions {
+                        if depth > 0
+                            || self.max_solutions == 1
+                            || self.solutions.len() >= self.max_solutions
+                        {
                             return true; // keep changes
                         }
 
@@ -309,14 +315,17 @@ impl DepthFirstSearch {
                                 Ok(true) if self.check_goal_in_facts(goal, facts) => {
                                     goal.status = GoalStatus::Proven;
 
-                                    // Save this solution
-                                    self.solutions.push(Solution {
-                                        path: self.path.clone(),
-                                        bindings: goal.bindings.to_map(),
-                                    });
+                                    // Save this solution (root goal only, see above)
+                                    if depth == 0 {
+                                        self.solutions.push(Solution {
+                                            path: self.path.clone(),
+                                            bindings: goal.bindings.to_map(),
+                                        });
+                                    }
 
                                     // If we only want one solution OR we've found enough, stop searching
-                                    if self.max_solutions == 1
+                                    if depth > 0
+                                        || self.max_solutions == 1
                                         || self.solutions.len() >= self.max_solutions
                                     {
                                         return true; // keep changes
@@ -370,8 +379,10 @@ impl DepthFirstSearch {
             facts.rollback_undo_frame();
         }
 
-        // If we found at least one solution (even if less than max_solutions), consider it proven
-        if !self.solutions.is_empty() {
+        // If we found at least one solution (even if less than max_solutions), consider it proven.
+        // This only applies to the root goal: `solutions` holds proofs of the root goal, so a
+        // sub-goal (or a parent whose candidates all failed) must not inherit them.
+        if depth == 0 && !self.solutions.is_empty() {
             goal.status = GoalStatus::Proven;
             // For negated goals, finding a proof means negation fails
             return !goal.is_negated;
